@@ -89,7 +89,7 @@ CHECKS = {
 "C12": ("exploration", "deterministic simulation: (a) seeded message histories through the real SendBuffer / MessageWriter with sequence headers inspected; (b) MITM reorder / duplicate / drop / hold / replay of a raw client's chunks before the real server reader loop; accepted-implies-fresh oracle",
         "Oracle: chunk numbers step by exactly one, request ids unique; a message the server answers consisted of consecutive numbers above every accepted one with one request id; a replayed accepted message is not answered again.",
         "Policy None so the MITM stage can read sequence headers; client-side receiver is exercised in C35's world.", "7/C12"),
-"C18": ("fault_enumeration", "deterministic simulation with a disk node: the enumerated decision table (3456 configurations) plus seeded histories of validations interleaved with administrator moves, disk faults on stored copies / store directories and simulated clock jumps, against the real CertificateStore on a scratch PKI directory; decision-table reference model",
+"C18": ("fault_enumeration", "deterministic simulation with a disk node: the enumerated decision table (9216 configurations) plus seeded histories of validations interleaved with administrator moves, disk faults on stored copies / store directories and simulated clock jumps, against the real CertificateStore on a scratch PKI directory; decision-table reference model",
         "Oracle: Good => not in rejected/, byte-identical trusted copy (or trust-unknown and no copy), key length valid for the policy, and unless skip-verify: inside validity at the simulated time (when check-time), host and URI match; unknown and untrusted => in rejected/ afterwards; accepted => not in rejected/ afterwards.",
         "Runs as root: permission faults not injectable. Wall clock through the verif clock seam (fixed mode).", "7/C18"),
 "C35": ("exploration", "deterministic simulation, client side: the real AsyncSecureChannel + client TcpTransport event loop on a paused seeded tokio runtime against a scripted raw server (verif::net connector seam); seeded schedules of request submissions with individual deadlines and per-request server behaviour (prompt / slow multi-chunk / late / silent / duplicate / unknown id / abort / undecodable) plus server- or client-side close; history oracle over completion times and statuses",
